@@ -12,7 +12,7 @@ use syn::{
 use crate::{
     bound::{Bound, Bounds, WhereClauseBuilder},
     common::BinaryOp,
-    syn_utils::{expand_self, parenthesize_invisible_groups, ref_target},
+    syn_utils::{expand_self, parenthesize_invisible_groups, ref_target, with_lint_attrs},
 };
 
 use self::compare_op::{
@@ -130,7 +130,7 @@ fn build_by_item_struct_core(
                 build_deref_for_struct(item, &e, &fields)
             }
         };
-        ts_all.extend(e.apply_dump(result));
+        ts_all.extend(e.apply_dump(result.map(|ts| with_lint_attrs(ts, &item.attrs))));
     }
     Ok(ts_all)
 }
@@ -174,7 +174,7 @@ fn build_by_item_enum_core(
                 format!("derive `{}` for enum is not supported", e.kind),
             )),
         };
-        ts_all.extend(e.apply_dump(result));
+        ts_all.extend(e.apply_dump(result.map(|ts| with_lint_attrs(ts, &item.attrs))));
     }
     Ok(ts_all)
 }
